@@ -223,7 +223,7 @@ End Model.
 
 (* ------------------------------------------------------------------ Part 3: the specification *)
 Inductive seg := SKey (k : str) | SIdx (i : nat).
-Definition pos := list seg.
+Notation pos := (list seg).
 
 Definition path_seg (s : seg) : str :=
   match s with
